@@ -132,7 +132,7 @@ func runC16(c *eng.Ctx, tier string) {
 			}
 			ei := errResultIndex(f)
 			// what happens on the disabled edge
-			hit, _ := eng.Search(f, falseSucc.Instrs[0], nil, nil, func(x ssa.Instruction) bool {
+			hit, _ := eng.SearchBlock(f, falseSucc, nil, nil, func(x ssa.Instruction) bool {
 				if ci, ok := x.(ssa.CallInstruction); ok {
 					cal := eng.Callee(ci.Common())
 					return cal == lk || isStoreClientInvoke(ci.Common())
